@@ -456,7 +456,24 @@ class MemFS:
         return dst
 
     def move(self, src, dst):
-        self.replace(src, dst)
+        """shutil.move: a destination that is an existing directory RECEIVES the source (dst/basename(src)); rename first, copy + delete
+        when the rename fails"""
+        src, dst = self._norm(src), self._norm(dst)
+        real_dst = dst
+        if self.isdir(dst):
+            real_dst = dst + "/" + posixpath.basename(src.rstrip("/"))
+            if self.exists(real_dst):
+                raise _shutil.Error("Destination path '%s' already exists" % real_dst)
+        try:
+            self.replace(src, real_dst)
+        except OSError:
+            if self._q_isdir(src):
+                self.copytree(src, real_dst)
+                self.rmtree(src)
+            else:
+                self.copy(src, real_dst)
+                self.remove(src)
+        return real_dst
 
     def walk(self, top):
         top = self._norm(top)
